@@ -46,6 +46,9 @@ proofs/RunLoop_proofs.vos proofs/RunLoop_proofs.vok proofs/RunLoop_proofs.requir
 proofs/TCalc_proofs.vo proofs/TCalc_proofs.glob proofs/TCalc_proofs.v.beautified proofs/TCalc_proofs.required_vo: proofs/TCalc_proofs.v lib/Bytes.vo gen/Facts_render.vo model/RendererM.vo proofs/Renderer_proofs.vo model/TCalcM.vo
 proofs/TCalc_proofs.vio: proofs/TCalc_proofs.v lib/Bytes.vio gen/Facts_render.vio model/RendererM.vio proofs/Renderer_proofs.vio model/TCalcM.vio
 proofs/TCalc_proofs.vos proofs/TCalc_proofs.vok proofs/TCalc_proofs.required_vos: proofs/TCalc_proofs.v lib/Bytes.vos gen/Facts_render.vos model/RendererM.vos proofs/Renderer_proofs.vos model/TCalcM.vos
+proofs/TSrcImport_proofs.vo proofs/TSrcImport_proofs.glob proofs/TSrcImport_proofs.v.beautified proofs/TSrcImport_proofs.required_vo: proofs/TSrcImport_proofs.v lib/Bytes.vo gen/Facts_render.vo gen/Facts_escapers.vo model/RendererM.vo model/TCalcM.vo model/TSrcM.vo proofs/TSrc_proofs.vo
+proofs/TSrcImport_proofs.vio: proofs/TSrcImport_proofs.v lib/Bytes.vio gen/Facts_render.vio gen/Facts_escapers.vio model/RendererM.vio model/TCalcM.vio model/TSrcM.vio proofs/TSrc_proofs.vio
+proofs/TSrcImport_proofs.vos proofs/TSrcImport_proofs.vok proofs/TSrcImport_proofs.required_vos: proofs/TSrcImport_proofs.v lib/Bytes.vos gen/Facts_render.vos gen/Facts_escapers.vos model/RendererM.vos model/TCalcM.vos model/TSrcM.vos proofs/TSrc_proofs.vos
 proofs/TSrc_proofs.vo proofs/TSrc_proofs.glob proofs/TSrc_proofs.v.beautified proofs/TSrc_proofs.required_vo: proofs/TSrc_proofs.v lib/Bytes.vo gen/Facts_render.vo gen/Facts_escapers.vo model/RendererM.vo proofs/Renderer_proofs.vo model/TCalcM.vo proofs/TCalc_proofs.vo model/TSrcM.vo
 proofs/TSrc_proofs.vio: proofs/TSrc_proofs.v lib/Bytes.vio gen/Facts_render.vio gen/Facts_escapers.vio model/RendererM.vio proofs/Renderer_proofs.vio model/TCalcM.vio proofs/TCalc_proofs.vio model/TSrcM.vio
 proofs/TSrc_proofs.vos proofs/TSrc_proofs.vok proofs/TSrc_proofs.required_vos: proofs/TSrc_proofs.v lib/Bytes.vos gen/Facts_render.vos gen/Facts_escapers.vos model/RendererM.vos proofs/Renderer_proofs.vos model/TCalcM.vos proofs/TCalc_proofs.vos model/TSrcM.vos
@@ -55,9 +58,9 @@ props/C05.vos props/C05.vok props/C05.required_vos: props/C05.v lib/Bytes.vos ge
 props/C13.vo props/C13.glob props/C13.v.beautified props/C13.required_vo: props/C13.v lib/Bytes.vo gen/Facts_render.vo model/RendererM.vo model/TCalcM.vo proofs/TCalc_proofs.vo
 props/C13.vio: props/C13.v lib/Bytes.vio gen/Facts_render.vio model/RendererM.vio model/TCalcM.vio proofs/TCalc_proofs.vio
 props/C13.vos props/C13.vok props/C13.required_vos: props/C13.v lib/Bytes.vos gen/Facts_render.vos model/RendererM.vos model/TCalcM.vos proofs/TCalc_proofs.vos
-props/C16.vo props/C16.glob props/C16.v.beautified props/C16.required_vo: props/C16.v lib/Bytes.vo gen/Facts_render.vo gen/Facts_escapers.vo model/RendererM.vo proofs/Renderer_proofs.vo model/TCalcM.vo proofs/TCalc_proofs.vo model/TSrcM.vo proofs/TSrc_proofs.vo
-props/C16.vio: props/C16.v lib/Bytes.vio gen/Facts_render.vio gen/Facts_escapers.vio model/RendererM.vio proofs/Renderer_proofs.vio model/TCalcM.vio proofs/TCalc_proofs.vio model/TSrcM.vio proofs/TSrc_proofs.vio
-props/C16.vos props/C16.vok props/C16.required_vos: props/C16.v lib/Bytes.vos gen/Facts_render.vos gen/Facts_escapers.vos model/RendererM.vos proofs/Renderer_proofs.vos model/TCalcM.vos proofs/TCalc_proofs.vos model/TSrcM.vos proofs/TSrc_proofs.vos
+props/C16.vo props/C16.glob props/C16.v.beautified props/C16.required_vo: props/C16.v lib/Bytes.vo gen/Facts_render.vo gen/Facts_escapers.vo model/RendererM.vo proofs/Renderer_proofs.vo model/TCalcM.vo proofs/TCalc_proofs.vo model/TSrcM.vo proofs/TSrc_proofs.vo proofs/TSrcImport_proofs.vo
+props/C16.vio: props/C16.v lib/Bytes.vio gen/Facts_render.vio gen/Facts_escapers.vio model/RendererM.vio proofs/Renderer_proofs.vio model/TCalcM.vio proofs/TCalc_proofs.vio model/TSrcM.vio proofs/TSrc_proofs.vio proofs/TSrcImport_proofs.vio
+props/C16.vos props/C16.vok props/C16.required_vos: props/C16.v lib/Bytes.vos gen/Facts_render.vos gen/Facts_escapers.vos model/RendererM.vos proofs/Renderer_proofs.vos model/TCalcM.vos proofs/TCalc_proofs.vos model/TSrcM.vos proofs/TSrc_proofs.vos proofs/TSrcImport_proofs.vos
 props/C24.vo props/C24.glob props/C24.v.beautified props/C24.required_vo: props/C24.v lib/Bytes.vo gen/Facts_HTMLEscape.vo model/HTMLEscapeM.vo model/HtmlDecode.vo proofs/HTMLEscape_proofs.vo
 props/C24.vio: props/C24.v lib/Bytes.vio gen/Facts_HTMLEscape.vio model/HTMLEscapeM.vio model/HtmlDecode.vio proofs/HTMLEscape_proofs.vio
 props/C24.vos props/C24.vok props/C24.required_vos: props/C24.v lib/Bytes.vos gen/Facts_HTMLEscape.vos model/HTMLEscapeM.vos model/HtmlDecode.vos proofs/HTMLEscape_proofs.vos
